@@ -35,6 +35,10 @@ def parseOp (tok : String) : Option (POp × Option Nat) :=
   | ["at", i, k, f] => do pure (.on (← i.toNat?) (.atKey (← k.toNat?)), ← fuel? f)
   | ["get", i, k, f] => do pure (.on (← i.toNat?) (.atKey (← k.toNat?)), ← fuel? f)
   | ["idx", i, k, f] => do pure (.on (← i.toNat?) (.index (← k.toNat?)), ← fuel? f)
+  | ["empa", i, p, k, f] => do pure (.onA (← i.toNat?) (.emplaceAtAlias (← p.toNat?) (← k.toNat?)), ← fuel? f)
+  | ["pba", i, k, f] => do pure (.onA (← i.toNat?) (.pushBackAlias (← k.toNat?)), ← fuel? f)
+  | ["eba", i, k, f] => do pure (.onA (← i.toNat?) (.emplaceBackAlias (← k.toNat?)), ← fuel? f)
+  | ["ica", i, k, f] => do pure (.onA (← i.toNat?) (.insertAlias (← k.toNat?)), ← fuel? f)
   | _ => none
 
 def parseOps (s : String) : Option (List (POp × Option Nat)) :=
@@ -107,16 +111,17 @@ def isSingleElem : POp → Bool
   | .on _ (.range _ _) => false
   | .on _ (.pushRange _) => false
   | .on _ _ => true
+  | .onA _ _ => true
   | _ => false
 
 def targetOf : POp → Nat
   | .new i _ | .newIter i _ _ | .newList i _ | .copy i _ | .move i _ | .asg i _ | .masg i _
-  | .lasg i _ | .on i _ => i
+  | .lasg i _ | .on i _ | .onA i _ => i
 
 /-- C06 on implementation output: safety facts that must hold after every step, and the
 exact raise conditions of single-vector operations, computed from the *implementation's own*
 previous state. -/
-def judge06Go (prev : List (Option Seen)) : List (POp × Option Nat) → List String → Option String
+def judge06Go (prev : List (Option Seen)) (holes : Bool) : List (POp × Option Nat) → List String → Option String
   | [], [] => none
   | (op, _fuel) :: ops, s :: ss =>
     match parseStep s with
@@ -127,11 +132,26 @@ def judge06Go (prev : List (Option Seen)) : List (POp × Option Nat) → List St
         | none => false
         | some x => x.size > x.cap || x.elems.length ≠ x.size || x.relems ≠ x.elems.reverse
       if bad then some ("state-inconsistent:" ++ s) else
+      -- an element exception in the middle of a shifting operation may leave a moved-from hull in the
+      -- live range (basic guarantee); otherwise the caller must only ever see elements it put there
+      let shifting := match op with
+        | .on _ (.emplaceAt _ _) | .on _ (.erase _) | .onA _ (.emplaceAtAlias _ _) => true
+        | _ => false
+      let holes := holes || (r = "threw" && shifting)
+      if !holes && cur.any (fun v => match v with | some x => x.elems.contains "S" | none => false) then
+        some ("unfilled-slot-visible:" ++ s) else
       let i := targetOf op
       let before := (prev[i]?).join
       let after := (cur[i]?).join
+      let op := match op, before with
+        | .onA i a, some b =>
+          (match resolveL (b.elems.map fun (e : String) => match e.toNat? with | some n => Slot.val n | none => Slot.stale) a with
+            | some o => POp.on i o
+            | none => op)
+        | _, _ => op
       let err : Option String :=
         match op, before with
+        | .onA _ _, some _ => if r = "raised" && seenEq before after then none else some "alias-op-on-missing-element"
         | .on _ o, some b =>
           -- capacity is fixed
           (match after with
@@ -155,13 +175,13 @@ def judge06Go (prev : List (Option Seen)) : List (POp × Option Nat) → List St
       -- other vectors untouched by single-vector operations
       let others : Option String :=
         match op with
-        | .on _ _ =>
+        | .on _ _ | .onA _ _ =>
           if (List.range 3).any (fun k => k ≠ i && !seenEq ((prev[k]?).join) ((cur[k]?).join))
           then some "other-vector-changed" else none
         | _ => none
       match err <|> others with
       | some e => some (e ++ ":" ++ s)
-      | none => judge06Go cur ops ss
+      | none => judge06Go cur holes ops ss
   | _, _ => some "step-count"
 
 /-- Reference pool for C07: capacity + plain list, nothing else. -/
@@ -193,6 +213,11 @@ def rstep (p : RPool) (op : POp) : RPool × Res :=
       let (l', r) := Ref.apply cap l o
       (p.set i (some (cap, l')), r)
     | none => (p, .raised)
+  | .onA i a => match get i with
+    | some (cap, l) =>
+      let (l', r) := Ref.applyA cap l a
+      (p.set i (some (cap, l')), r)
+    | none => (p, .raised)
 
 def rvecStr : Option (Nat × List Slot) → String
   | none => "~"
@@ -201,6 +226,12 @@ def rvecStr : Option (Nat × List Slot) → String
 def judge07Go (p : RPool) : List (POp × Option Nat) → List String → Option String
   | [], [] => none
   | (op, _) :: ops, s :: ss =>
+    -- range insertion at an interior position is specified nowhere and is outside C07's alphabet:
+    -- the comparison stops there (C06 still covers the operation for safety)
+    let interior := match op with
+      | .on i (.range pos _) => (match (p[i]?).join with | some (_, l) => pos != l.length | none => false)
+      | _ => false
+    if interior then none else
     let (p', r) := rstep p op
     -- after a move assignment the source holds the target's old contents in the implementation
     -- (swap); the property only says the target receives the sequence, so the source is not compared
@@ -247,7 +278,7 @@ def judge (f : List String) (ans : String) : String :=
       else
       let steps := if ans = "" then [] else ans.splitOn ";"
       let v := if sub = "c07" then judge07Go [none, none, none] ops steps
-               else judge06Go [none, none, none] ops steps
+               else judge06Go [none, none, none] false ops steps
       match v with
       | none => "ok" ++ feats ops ans
       | some e => "bad:" ++ e ++ feats ops ans
